@@ -13,7 +13,7 @@ var syncSites = map[uint32]bool{}
 var taskKinds = []struct {
 	kind string
 	w    int
-}{{"parse", 18}, {"parse-render", 10}, {"stream", 14}, {"render", 26}, {"append", 8}, {"format", 14}, {"walk", 10}, {"inspect", 8}, {"walk-shared", 7}, {"stream-shared-ip", 7}, {"gc", 3}}
+}{{"parse", 18}, {"parse-render", 10}, {"stream", 14}, {"render", 26}, {"append", 8}, {"format", 14}, {"walk", 10}, {"inspect", 8}, {"walk-shared", 7}, {"stream-shared-ip", 7}, {"gc", 3}, {"parse-keep-inner", 4}}
 
 func genSched(r *Rng, phase string) []*Scenario {
 	nd := r.Range(1, 4)
